@@ -5,7 +5,7 @@ for p in "$@"; do
   ( for i in 1 2 3; do
       d=$ROOT/$p/$i
       [ -f $d/patch.diff ] || continue
-      /verif/tools/seedeval.py $d > /var/tmp/seedeval-b-$p-$i.log 2>&1
+      /verif/tools/seedeval.py $d > /var/tmp/seedeval-$(basename $ROOT)-$p-$i.log 2>&1
     done ) &
 done
 wait
